@@ -24,7 +24,7 @@ FAMS = ["wmom", "wmom-nd", "wmedian", "sigma_clip", "sigma_clip-w", "interplin",
 
 
 def cases(seed, tier):
-    n = 3200 if tier == "quick" else 64000
+    n = 3800 if tier == "quick" else 64000
     rng = np.random.default_rng([seed, 18])
     for i in range(n):
         yield {"family": FAMS[i % len(FAMS)], "sub": int(rng.integers(0, 2**31))}
@@ -319,6 +319,15 @@ def install():
 
 
 def _weights(rng, n):
+    w = _weights0(rng, n)
+    if rng.random() < .3:
+        # the same weights in other units: an exact rescale by a power of two between 2^-200 and 2^200 (fluxes of
+        # 1e-17, inverse variances of 1e+30); nothing in the definitions depends on the overall scale
+        w = w * 2.0 ** float(rng.integers(-200, 201))
+    return w
+
+
+def _weights0(rng, n):
     mode = int(rng.integers(0, 4))
     if mode == 0:
         return np.full(n, float(rng.choice([1.0, 0.25, 7.0])))
